@@ -45,11 +45,10 @@ class BMHooks(Hooks):
                 it.event('key-hash', args[0])
                 return App('script_expr', args[0])
         if isinstance(callee, Builtin) and callee.name == 'sorted':
-            keyf = kwargs.get('key')
-            kind = 'identity'
-            if isinstance(keyf, FuncRef) and keyf.lam is not None:
-                r = it.call_function(keyf, [(Sym('probe_k'), Sym('probe_v'))], {}, None)
-                kind = 'first' if isinstance(r, Sym) and r.name == 'probe_k' else 'other'
+            from ..absint import sort_key_kind
+            kind = sort_key_kind(it, kwargs.get('key'))
+            if kwargs.get('reverse') not in (None, False):
+                kind = 'reversed'
             return App('sorted', list(args[0]) if isinstance(args[0], (list, tuple)) else args[0], kind)
         if isinstance(callee, ModRef) and callee.name in ('copy.copy', 'copy.deepcopy'):
             return args[0]
@@ -177,6 +176,15 @@ def run(repo: Repo, chk: Check) -> None:
                         'spec': {'previous': old, 'items': sorted(items), 'removed': sorted(removed)}},
                        what=f'{label}: new state items={got_items} removed={got_removed} previous={vrepr(prev)}; layered dictionary: '
                             f'items={sorted(items)} removed={sorted(removed)} previous={old}')
+                # the entry list is kept in key order (it is rendered as a big_map literal / lazy diff and parsed back under the
+                # sortedness check; a removal keeps a subsequence, an insertion has to sort by the entry key)
+                raw = new.fields['items']
+                nent = len(raw.args[0]) if isinstance(raw, App) and raw.op == 'sorted' and isinstance(raw.args[0], list) else (len(raw) if isinstance(raw, list) else None)
+                in_order = (isinstance(raw, App) and raw.op == 'sorted' and raw.args[1] == 'first') or (isinstance(raw, list) and (len(raw) <= 1 or val is None))
+                chk.ob('R-ORD', f'{BM}.update', in_order, f'{label}: entry list stays sorted by key', update.loc,
+                       {'items_term': vrepr(raw)[:160], 'entries': nent},
+                       what=f'{label}: the entries of the updated big_map are {vrepr(raw)[:120]} - not sorted by key (insertion order leaks into the '
+                            'rendered literal and lazy diff, which the parser rejects as unsorted)')
                 # purity + context
                 pure = isinstance(got_items, list) and all(b != 'None' for a, b in got_items) and not (set(a for a, b in got_items) & set(got_removed))
                 chk.ob('R-FLOW', f'{BM}.update', pure, f'{label}: entry list purity', update.loc, {'items': got_items, 'removed': got_removed},
